@@ -6,7 +6,10 @@ from seeded_meta import NEEDS
 
 TRIALS = "/tmp/trials"
 # strengthened in anticipation (the author's summary was read before the first trial run)
-ANTICIPATED = {"C09-B", "C10-A", "C14-A", "C14-B", "C15-B", "C16-B", "C17-A", "C17-B", "C18-B", "C19-A", "C19-B", "C20-B", "C13-A", "C12-A", "C04-A"}
+ANTICIPATED = {"C09-B", "C10-A", "C14-A", "C14-B", "C15-B", "C16-B", "C17-A", "C17-B", "C18-B", "C19-A", "C19-B", "C20-B", "C13-A", "C12-A", "C04-A",
+               # round 2
+               "C16-C", "C16-D", "C18-D", "C15-D", "C15-C", "C19-C", "C02-C", "C01-C", "C05-C", "C05-D", "C17-C", "C03-D", "C10-D", "C14-C",
+               "C09-C", "C09-D", "C04-C", "C13-C", "C17-D", "C06-D", "C20-C", "C20-D", "C07-D"}
 STRENGTHENED = [
     ("C02-A", "no generated project had a command reporting a dependency on a *generated* file it only has an order-only edge to (the classic generated-header case); added to the generator (ap.rs)"),
     ("C04-B", "the C04 workload had no regenerated manifest; added generations that change pool depths (sched.rs)"),
@@ -26,6 +29,27 @@ STRENGTHENED = [
     ("C19-B", "the C19 workload had no `-t restat` invocation; added as a follow-up (sched.rs)"),
     ("C20-B", "count vectors were exhaustive only up to a total of 12; all (finished, in flight, waiting) triples up to 130 each added (pure/render.rs)"),
     ("C04-A", "restat-like (write-if-changed) commands were off in the C04 workload; switched on"),
+    # round 2
+    ("C02-D", "missed on the first trial: E2 histories rarely changed a response file; every third C02 E2 case now keeps rewriting response-file contents (often same length), and the agent derives its outputs from the response file it finds on disk (realp.rs, agent.rs)"),
+    ("C06-C", "missed on the first trial: C06 had no check that a failed build still ran everything runnable; the check C05 uses is now shared (sched.rs check_runs_everything_runnable)"),
+    ("C12-C", "missed on the first trial: the endless loop hung all workers (and ate memory); the driver now caps worker address space and decides hangs by re-running the journalled input alone (check), CRLF line endings are one of the manifest mutations (pure/total.rs)"),
+    ("C16-C", "task output streams were ASCII; they now contain Latin-1, truncated UTF-8 and binary bytes (agent_stream.rs)"),
+    ("C16-D", "C16 was a single invocation; a second one shortens/changes response files and the agents compare what they find (real_c16.rs)"),
+    ("C18-D", "E2 never passed unknown names or -d ninja_compat; added (realp.rs)"),
+    ("C15-C / C15-D", "C15 was function-level only; end-to-end stages added (E1 via C09's histories, E2 with real depfiles incl. 'no depfile at all'), and three malformed classes (backslash between tokens) must now be rejected (pure/depfile.rs)"),
+    ("C19-C", "every generated step had a command; a real step whose command evaluates to the empty string added (ap.rs ver 0)"),
+    ("C02-C", "all inputs were regular files; a fifth of the sources are now symbolic links whose targets are edited in place (sim.rs init_sources)"),
+    ("C01-C / C05-C", "E2 failing commands only used exit codes; some now die by TERM/KILL/SEGV/HUP with the shell, and C01's E2 judge checks containment (realp.rs)"),
+    ("C05-D / C17-C", "generated manifests in the C05 workload, generator with two generated prerequisites (sched.rs add_regen)"),
+    ("C03-D", "a command that rewrites a file it reports as a dependency (module cache) added to C03 (hist.rs)"),
+    ("C10-D", "rule names were unique; a subninja file may now redeclare a rule name of its parent (pure/manifest.rs)"),
+    ("C14-C", "re-spellings only used '/' noise; './'-style noise with backslashes and names with backslash separators added (ap.rs respell, pure/manifest.rs)"),
+    ("C09-C / C09-D", "C09 histories now delete plain sources (an order-only input that is also reported), and command output may end in an include note without newline (hist.rs, pure/depfile.rs)"),
+    ("C04-C", "pool names were literal in the rule; now also through a build-block binding (ap.rs via_vars), and a differing pool assignment is reported under C04 (sim.rs)"),
+    ("C13-C / C17-D", "-f was never given a non-canonical spelling; added to C17 histories, C13 runs a third of its E1 cases on them (hist.rs)"),
+    ("C06-D", "C06 commands did not report dependencies; they do now, including a scratch header that is gone afterwards (sched.rs)"),
+    ("C20-C / C20-D", "pty builds now use hide_progress/hide_success and check the width of frames drawn after a resize (real_misc.rs)"),
+    ("C07-D", "manifest edits between the crash and the recovery build (hist.rs crash_case)"),
 ]
 OUT = "/verif/seeded"
 
